@@ -18,10 +18,17 @@ import os
 import numpy as np
 
 ID = "C15"
-RULE = ("random 1-3-D densities (unique-id, blob and duplicate-valued data; float32/float64/int32; anisotropic dyadic "
-        "origins and rates) x boxes with negative starts / stops beyond the data / empty and inverted boxes; centred "
-        "and appended padding to all target extents incl. shrinking; cut-offs taken from the data, margins 0-3; "
-        "resampling ratios incl. exact ties, both methods; histories of 2-12 mixed operations. "
+RULE = ("random 1-3-D densities (unique-id, blob and duplicate-valued data; float32/float64/int16/int32/int64, uint8/uint16/bool "
+        "masks; C / Fortran / transposed / strided / reversed / offset views, read-only arrays, numpy.memmap (r and c), "
+        "byte-swapped dtypes; voxel values through affine maps id*scale+offset with scales 1e-9..1e3 and offsets up to "
+        "+-1000; origins and rates as float64 / float32 / int64 arrays, lists, tuples, python scalars, dyadic, whole-number "
+        "or far from zero (+-2^30)) x boxes with negative starts / stops beyond the data / empty and inverted boxes, given "
+        "as tuple or list of python / numpy-int slices, pad_kwargs in three spellings or left out; centred and appended "
+        "padding to all target extents incl. shrinking, shapes as tuple / list / numpy arrays, flags as bool / numpy.bool_ / "
+        "int, positional or keyword; cut-offs tied with a data value or strictly between two, python or numpy scalars, "
+        "margins 0-8; resampling ratios incl. exact ties, both methods, rates in every form; histories of 2-12 mixed "
+        "operations incl. default arguments after explicit ones and to_memmap / to_numpy in between; histories that contain "
+        "resampling (bookkeeping); extents of hundreds to > 10^6 voxels and box / pad differences beyond 2^7, 2^8, 2^15, 2^16. "
         "distinct = distinct (operation, shape, parameters) tuples; identity boxes / unchanged shapes are not counted")
 ASSUMPTIONS = [
     "adjust_box boxes have stop >= 0 on every axis for the extent / fill / conservation clauses (the docstring: only "
@@ -29,22 +36,49 @@ ASSUMPTIONS = [
     "physical-position clause",
     "trim_box margins >= 0 for the containment clause; data without NaN",
     "resample: interpolation (scipy.ndimage.zoom / Fourier cropping) is not modelled - extents, rate and origin only; "
-    "when n*old/new is within 1e-6 of a tie and the ratio is not exactly representable the extent is not compared",
+    "when n*old/new is within 1e-6 of a tie and the ratio is not exactly representable the extent is not compared; when both "
+    "rates are float32 arrays the ratio is formed in float32 and is only compared when it is exact there too",
     "matching_utils.minimum_enclosing_box (float norm + ceil) enters the model as a recorded value; its contract "
     "side >= max-min+1 is checked on every call",
-    "coordinates in the exact streams are multiples of 1/8 (float arithmetic exact); arbitrary floats are checked "
-    "with relative tolerance 1e-6",
+    "coordinates in the exact streams are multiples of 1/8 of magnitude < 2^31 (float arithmetic exact); arbitrary floats are "
+    "checked with a tolerance derived from the rounding model: (operations + 2) * eps * largest coordinate magnitude, times 8",
+    "voxel values id*scale+offset are used only where the map is strictly increasing with a gap of >= 16 ulp of the dtype and "
+    "exactly invertible (checked when the case is generated; otherwise the identity map is used); the library's default pad "
+    "value 0 is only exercised where 0 is the image of an id (offset 0); unsigned / bool data only with pad values >= 0",
+    "extents beyond ~12 voxels per axis (up to > 10^6 voxels) and histories containing resampling by powers of two are checked "
+    "by the property clauses on the real outputs (and the geometry model), not voxel by voxel against the Lean array model",
+    "minimum_enclosing_box / centered: float dtypes and value maps that keep 0 at 0 (centre of mass and interpolation inside)",
 ]
 TRUSTED = ["C15: numpy.pad(mode='constant'), numpy basic slicing, scipy.ndimage.zoom output-shape rule are modelled and "
            "validated by correspondence only"]
 
 Q = 8            # coordinate quantum 1/Q
-DTYPES = ["float32", "float64", "int32"]
+DTYPES = ["float32", "float64", "int32", "int16", "int64"]
+UDTYPES = ["uint8", "uint16", "bool"]      # masks / 8- and 16-bit maps: values and pad values >= 0 only
+# memory layouts of the array handed to Density (same logical content)
+LAYOUTS = ["F", "T", "strided", "rev", "offset", "ro", "memmap", "memmap_c", "swapped"]
+# affine maps value = id*scale + offset of the voxel values (absolute intensity scale / offset); the Lean model sees the ids
+VALUE_MAPS = [(1e-9, 0.0), (7e-6, 0.0), (1e-3, 0.0), (0.1, 0.0), (0.3333333333333333, 0.0), (1e3, 0.0), (2.5, 100.0),
+              (1e-3, 1000.0), (1.0, -1000.0), (0.25, -37.5)]
+INT_MAPS = [(3, -50), (1000, -5000), (1, 1000)]
+OKINDS = ["f8", "f8", "tuple", "list", "f4", "i8", "ilist"]
+RKINDS = ["f8", "f8", "scalar", "list", "tuple", "f4", "i8", "iscalar"]
+_FILES = []      # scratch files of memory-mapped inputs of the current case
+_SEQ = [0]
 
 
 # ----------------------------------------------------------------------------------------------
 # helpers
 # ----------------------------------------------------------------------------------------------
+def _cleanup():
+    while _FILES:
+        f = _FILES.pop()
+        try:
+            os.remove(f)
+        except OSError:
+            pass
+
+
 def _guard(fn):
     """A case must never take the run down: an unexpected exception while evaluating one case is recorded as a
     correspondence failure for that input (and the stream goes on)."""
@@ -58,6 +92,8 @@ def _guard(fn):
         except Exception:  # noqa: BLE001
             ctx.agree("harness:" + fn.__name__, {"kind": fn.__name__[5:], **case}, "exception: " + traceback.format_exc()[-600:], "ok")
             return None
+        finally:
+            _cleanup()
     return wrapped
 
 
@@ -78,29 +114,208 @@ def _ints(a):
     return [float(v) for v in r]
 
 
-def _state(d):
-    return {"shape": [int(x) for x in d.shape], "data": _ints(d.data), "origin": _units(d.origin),
+# ---- value map: real value = dtype(id * scale + offset)
+def _vmap(case):
+    return case.get("scale", 1), case.get("offset", 0)
+
+
+def _fwd(case, x):
+    """ids -> the values stored in the real array (same rounding as the construction of the input)."""
+    s, t = _vmap(case)
+    dt = np.dtype(case.get("dtype", "float32"))
+    x = np.asarray(x)
+    if dt.kind in "iu":
+        return (x.astype(np.int64) * int(s) + int(t)).astype(dt)
+    return (x.astype(np.float64) * float(s) + float(t)).astype(dt)
+
+
+def _inv(case, arr):
+    """real values -> ids (float64 array); a value that is not the image of an integer becomes a non-integer."""
+    a = np.asarray(arr).astype(np.float64)
+    s, t = _vmap(case)
+    if s == 1 and t == 0:
+        return a
+    with np.errstate(all="ignore"):
+        q = (a - float(t)) / float(s)
+        i = np.round(q)
+        fin = np.isfinite(i) & (np.abs(i) < 2**40)
+        back = _fwd(case, np.where(fin, i, 0)).astype(np.float64)
+        ok = fin & (back == a)
+        return np.where(ok, i, np.where(fin, np.floor(q) + 0.3, q))
+
+
+def _real(case, v, half=False):
+    """the real scalar standing for the integer v (pad value, cut-off).  half: a value strictly between v and v+1."""
+    s, t = _vmap(case)
+    dt = np.dtype(case.get("dtype", "float32"))
+    if dt.kind in "iub":
+        r = int(v) * int(s) + int(t)
+        return r + int(s) / 2 if half else r
+    if half:
+        return (float(_fwd(case, [v])[0]) + float(_fwd(case, [v + 1])[0])) / 2
+    return float(v) * float(s) + float(t)
+
+
+def _map_ok(case, lo, hi):
+    """the value map is strictly increasing on lo..hi with a margin of several ulps (also for mid-points) and exactly
+    invertible there; otherwise the generator falls back to the identity map (deterministic, no resampling)."""
+    dt = np.dtype(case.get("dtype", "float32"))
+    s, t = _vmap(case)
+    ids = np.arange(lo, hi + 1)
+    if dt.kind in "iu":
+        ii = np.iinfo(dt)
+        v = ids.astype(object) * int(s) + int(t)
+        return float(s) == int(s) and float(t) == int(t) and int(s) >= 1 and min(v) >= ii.min and max(v) <= ii.max
+    f = _fwd(case, ids)
+    f64 = f.astype(np.float64)
+    if not np.all(np.isfinite(f64)):
+        return False
+    gap = np.diff(f64)
+    ulp = float(np.spacing(np.abs(f).max().astype(dt)))
+    if not np.all(gap >= 16 * ulp):
+        return False
+    mid = ((f64[:-1] + f64[1:]) / 2).astype(dt).astype(np.float64)
+    if not (np.all(mid > f64[:-1]) and np.all(mid < f64[1:])):
+        return False
+    return bool(np.array_equal(_inv(case, f), ids.astype(np.float64)))
+
+
+def _state(d, case=None):
+    case = case or {}
+    return {"shape": [int(x) for x in d.shape], "data": _ints(_inv(case, d.data)), "origin": _units(d.origin),
             "rate": _units(d.sampling_rate)}
 
 
-def _mk(case):
-    """Build the real Density of a case: returns (density, raw numpy array handed to the constructor)."""
+def _lay(raw, layout):
+    """the same logical array in another memory layout"""
+    nd = raw.ndim
+    if layout in (None, "C") or raw.size == 0 or nd == 0:
+        return raw
+    if layout == "F":
+        return np.asfortranarray(raw)
+    if layout == "T":
+        return np.ascontiguousarray(raw.T).T
+    if layout == "strided":
+        big = np.full(tuple(2 * n + 1 for n in raw.shape), 7777, dtype=raw.dtype)
+        v = big[tuple(slice(1, None, 2) for _ in raw.shape)]
+        v[...] = raw
+        return v
+    if layout == "rev":
+        rev = (slice(None, None, -1),) * nd
+        return np.ascontiguousarray(raw[rev])[rev]
+    if layout == "offset":
+        big = np.full(tuple(n + 3 for n in raw.shape), 7777, dtype=raw.dtype)
+        v = big[tuple(slice(2, 2 + n) for n in raw.shape)]
+        v[...] = raw
+        return v
+    if layout == "ro":
+        r = raw.copy()
+        r.setflags(write=False)
+        return r
+    if layout == "swapped":
+        return raw.astype(raw.dtype.newbyteorder())
+    if layout in ("memmap", "memmap_c"):
+        from pv import env
+        _SEQ[0] += 1
+        fname = os.path.join(env.scratch(), "c15_in_%d_%d.mm" % (os.getpid(), _SEQ[0]))
+        with open(fname, "wb") as f:
+            f.write(b"\x5a" * 24)
+            f.write(np.ascontiguousarray(raw).tobytes())
+        _FILES.append(fname)
+        return np.memmap(fname, dtype=raw.dtype, mode="r" if layout == "memmap" else "c", offset=24, shape=raw.shape)
+    return raw
+
+
+def _coords(case):
+    """origin / sampling rate in the form (container, dtype) the case asks for; falls back to float64 arrays when the
+    values do not fit the form.  Returns (origin argument, rate argument, origin float64, rate float64)."""
+    ou = np.array(case["origin"], dtype=np.int64)
+    ru = np.array(case["rate"], dtype=np.int64)
+    o = ou.astype(np.float64) / Q
+    r = ru.astype(np.float64) / Q
+    ok = case.get("okind") or ("tuple" if case.get("tuple_origin") else "f8")
+    rk = case.get("rkind") or ("scalar" if case.get("scalar_rate") else "f8")
+    int_o, int_r = bool(np.all(ou % Q == 0)), bool(np.all(ru % Q == 0))
+    small_o, small_r = bool(np.all(np.abs(ou) < 2**20)), bool(np.all(np.abs(ru) < 2**20))
+    same_r = bool(ru.size and np.all(ru == ru[0]))
+    if ok == "none" and not np.any(ou):
+        origin = None                      # constructor default: zeros
+    elif ok == "tuple":
+        origin = tuple(float(x) for x in o)
+    elif ok == "list":
+        origin = [float(x) for x in o]
+    elif ok == "f4" and small_o:
+        origin = o.astype(np.float32)
+    elif ok == "i8" and int_o:
+        origin = (ou // Q).astype(np.int64)
+    elif ok == "ilist" and int_o:
+        origin = [int(x) for x in ou // Q]
+    else:
+        origin = o.copy()
+    if rk == "none" and bool(np.all(ru == Q)):
+        rate = None                        # constructor default: 1
+    elif rk == "scalar" and same_r:
+        rate = float(r[0])
+    elif rk == "iscalar" and same_r and int_r:
+        rate = int(ru[0] // Q)
+    elif rk == "list":
+        rate = [float(x) for x in r]
+    elif rk == "tuple":
+        rate = tuple(float(x) for x in r)
+    elif rk == "f4" and small_r:
+        rate = r.astype(np.float32)
+    elif rk == "i8" and int_r:
+        rate = (ru // Q).astype(np.int64)
+    else:
+        rate = r.copy()
+    return origin, rate, o, r
+
+
+def _mk(case, **kw):
+    """Build the real Density of a case: returns (density, the array handed to the constructor)."""
     from tme import Density
-    raw = np.array(case["data"], dtype=np.int64).reshape(case["shape"]).astype(case.get("dtype", "float32"))
-    origin = np.array(case["origin"], dtype=np.float64) / Q
-    rate = np.array(case["rate"], dtype=np.float64) / Q
-    if case.get("scalar_rate"):
-        rate = float(rate[0])
-    if case.get("tuple_origin"):
-        origin = tuple(float(x) for x in origin)
-    return Density(raw, origin=origin, sampling_rate=rate), raw
+    raw = _fwd(case, np.array(case["data"], dtype=np.int64).reshape(case["shape"]))
+    raw = _lay(raw, case.get("layout"))
+    origin, rate, _, _ = _coords(case)
+    return Density(raw, origin=origin, sampling_rate=rate, **kw), raw
 
 
 def _margs(case):
     return {"shape": case["shape"], "data": case["data"], "origin": case["origin"], "rate": case["rate"]}
 
 
-def gen_density(rng, nd=None, mode=None, maxext=None):
+def _variants(rng, case, lo=-120, hi=None, maps=True):
+    """memory layout, value map and the form of origin / rate of a generated density (in place)."""
+    n = len(case["data"])
+    case["layout"] = str(rng.choice(LAYOUTS)) if rng.random() < 0.45 else "C"
+    kind = np.dtype(case["dtype"]).kind
+    if maps and rng.random() < 0.4:
+        tab = INT_MAPS if kind in "iu" else VALUE_MAPS
+        s, t = tab[int(rng.integers(0, len(tab)))]
+        case["scale"], case["offset"] = s, t
+        if not _map_ok(case, lo, (hi if hi is not None else n + 10)):
+            case.pop("scale"); case.pop("offset")
+    case["okind"] = str(rng.choice(OKINDS))
+    case["rkind"] = str(rng.choice(RKINDS))
+    case.pop("scalar_rate", None); case.pop("tuple_origin", None)
+    return case
+
+
+def _vary(case, i, maps=True):
+    """deterministic variation (layout, dtype, value map, forms of origin / rate) for the exhaustive grids"""
+    case["layout"] = (["C"] + LAYOUTS)[i % (len(LAYOUTS) + 1)]
+    case["dtype"] = DTYPES[(i // 3) % len(DTYPES)]
+    if maps and i % 2:
+        tab = INT_MAPS if np.dtype(case["dtype"]).kind in "iu" else VALUE_MAPS
+        case["scale"], case["offset"] = tab[(i // 2) % len(tab)]
+        if not _map_ok(case, -120, len(case["data"]) + 10):
+            case.pop("scale"); case.pop("offset")
+    case["okind"] = OKINDS[(i // 5) % len(OKINDS)]
+    case["rkind"] = RKINDS[(i // 7) % len(RKINDS)]
+    return case
+
+
+def gen_density(rng, nd=None, mode=None, maxext=None, maps=True, dtypes=None):
     nd = int(nd or rng.choice([1, 2, 3], p=[0.3, 0.4, 0.3]))
     hi = maxext or {1: 12, 2: 7, 3: 5}[nd]
     shape = [int(x) for x in rng.integers(1, hi + 1, size=nd)]
@@ -117,12 +332,29 @@ def gen_density(rng, nd=None, mode=None, maxext=None):
         data[sel] = rng.permutation(n)[:k] + 1
     else:
         data = rng.integers(-3, 6, size=n)
+    dtype = str(rng.choice(dtypes or DTYPES))
+    if dtypes is None and mode == "dup" and rng.random() < 0.5:
+        dtype = str(rng.choice(UDTYPES))
+        data = rng.integers(0, 2 if dtype == "bool" else 6, size=n)
     iso = rng.random() < 0.25
     rate = [int(rng.integers(1, 33))] * nd if iso else [int(x) for x in rng.integers(1, 33, size=nd)]
-    return {"shape": shape, "data": [int(x) for x in data], "mode": mode,
-            "origin": [int(x) for x in rng.integers(-80, 81, size=nd)], "rate": rate,
-            "dtype": str(rng.choice(DTYPES)), "scalar_rate": bool(iso and rng.random() < 0.5),
-            "tuple_origin": bool(rng.random() < 0.3)}
+    origin = [int(x) for x in rng.integers(-80, 81, size=nd)]
+    r = rng.random()
+    if r < 0.3:            # whole-number coordinates (so that integer-typed origins / rates are possible)
+        origin = [Q * int(x) for x in rng.integers(-10, 11, size=nd)]
+        rate = [Q * int(x) for x in (rng.integers(1, 5, size=1).repeat(nd) if iso else rng.integers(1, 5, size=nd))]
+    elif r < 0.45:         # far from zero: origin +-2^30, rates up to 2^9 (still exact in float64)
+        origin = [int(x) for x in rng.integers(-2**33, 2**33, size=nd)]
+        rate = [int(x) for x in (rng.integers(1, 2**12, size=1).repeat(nd) if iso else rng.integers(1, 2**12, size=nd))]
+    case = {"shape": shape, "data": [int(x) for x in data], "mode": mode, "origin": origin, "rate": rate,
+            "dtype": dtype}
+    _variants(rng, case, maps=maps and dtype not in UDTYPES)
+    if rng.random() < 0.08:            # origin and / or sampling rate left to the constructor's defaults (0 and 1)
+        if rng.random() < 0.7:
+            case.update(origin=[0] * nd, okind="none")
+        if rng.random() < 0.7:
+            case.update(rate=[Q] * nd, rkind="none")
+    return case
 
 
 def gen_box(rng, shape, quirk=False):
@@ -148,6 +380,8 @@ def _idmap_ok(case):
 
 
 def _pad_for(rng, case):
+    if case.get("dtype") in UDTYPES:
+        return int(rng.choice([0, 0, 1]))
     return int(rng.choice([0, 0, -1, -7, -100]))
 
 
@@ -170,7 +404,7 @@ def spec_provenance(ctx, tag, inp, case, new, exact=True):
     pos_of[data0] = np.arange(data0.size)
     nd = len(shape0)
     arr = np.asarray(new.data)
-    vals = arr.reshape(-1)
+    vals = _inv(case, arr).reshape(-1)
     J = np.indices(arr.shape).reshape(nd, -1) if arr.size else np.zeros((nd, 0), dtype=np.int64)
     isid = (vals >= 1) & (vals <= data0.size) & (vals == np.round(vals))
     ids = vals[isid].astype(np.int64)
@@ -250,24 +484,39 @@ def spec_box(ctx, tag, inp, old_data, old_origin, old_rate, new, box, padv, exte
 # ----------------------------------------------------------------------------------------------
 # single cases (used by run, search and replay)
 # ----------------------------------------------------------------------------------------------
+def _box_arg(case, box):
+    """the box in the container / integer type the case asks for"""
+    form = case.get("boxform") or ("np64" if case.get("np_ints") else "tuple")
+    if form == "np64":
+        sl = [slice(np.int64(b[0]), np.int64(b[1])) for b in box]
+    elif form == "np32":
+        sl = [slice(np.int32(b[0]), np.int32(b[1])) for b in box]
+    else:
+        sl = [slice(int(b[0]), int(b[1])) for b in box]
+    return sl if form == "list" else tuple(sl)
+
+
 @_guard
 def case_adjust(ctx, case, model=None):
-    """case: density + box + pad (+ 'default_pad')."""
+    """case: density + box + pad (+ 'default_pad', 'padform', 'boxform')."""
     d, raw = _mk(case)
     box, padv = case["box"], case["pad"]
+    padr = _real(case, padv)
     inp = {"kind": "adjust", **case}
     quirk = any(b[1] < 0 for b in box)
-    old = raw.copy()
-    o0, r0 = np.array(case["origin"]) / Q, np.array(case["rate"]) / Q
-    sl = tuple(slice(b[0], b[1]) for b in box)
-    if case.get("np_ints"):
-        sl = tuple(slice(np.int64(b[0]), np.int64(b[1])) for b in box)
+    old = np.array(raw).astype(raw.dtype.newbyteorder("=")) if raw.size else np.array(raw)
+    _, _, o0, r0 = _coords(case)
+    sl = _box_arg(case, box)
     try:
         if case.get("default_pad"):
             d.adjust_box(sl)
+        elif case.get("padform") == "mode":
+            d.adjust_box(sl, pad_kwargs={"mode": "constant", "constant_values": padr})
+        elif case.get("padform") == "positional":
+            d.adjust_box(sl, {"constant_values": padr})
         else:
-            d.adjust_box(sl, pad_kwargs={"constant_values": padv})
-        impl = _state(d)
+            d.adjust_box(sl, pad_kwargs={"constant_values": padr})
+        impl = _state(d, case)
     except Exception as e:  # noqa: BLE001
         impl = "raised:" + type(e).__name__
     if model is None:
@@ -279,10 +528,15 @@ def case_adjust(ctx, case, model=None):
     if isinstance(impl, str):
         ctx.spec("adjust_box: returns", inp, False, impl, key="adjust_box:raised")
         return
-    spec_box(ctx, "adjust_box", inp, old, o0, r0, d, box, padv, extent=not quirk)
+    spec_box(ctx, "adjust_box", inp, old, o0, r0, d, box, padr, extent=not quirk)
     spec_provenance(ctx, "adjust_box", inp, case, d)
     ctx.spec("adjust_box: caller's array untouched", inp, bool(np.array_equal(raw, old)), key="adjust_box:source")
     ctx.count("adjust:ndim=%d" % len(box))
+    ctx.count("layout:" + str(case.get("layout", "C")))
+    ctx.count("dtype:" + str(case.get("dtype")))
+    ctx.count("values:" + ("id" if _vmap(case) == (1, 0) else "scale=%g,offset=%g" % _vmap(case)))
+    ctx.count("origin-form:" + str(case.get("okind", "f8")))
+    ctx.count("rate-form:" + str(case.get("rkind", "f8")))
     for b, n in zip(box, case["shape"]):
         s, e = b
         ctx.count("adjust:axis:" + ("neg-stop" if e < 0 else "identity" if (s, e) == (0, n) else
@@ -298,17 +552,26 @@ def case_adjust(ctx, case, model=None):
 def case_pad(ctx, case, model=None):
     d, raw = _mk(case)
     ns, center, padv = case["newshape"], case["center"], case["pad"]
+    padr = _real(case, padv)
     inp = {"kind": "pad", **case}
-    old = raw.copy()
-    o0, r0 = np.array(case["origin"]) / Q, np.array(case["rate"]) / Q
+    old = np.array(raw).astype(raw.dtype.newbyteorder("=")) if raw.size else np.array(raw)
+    _, _, o0, r0 = _coords(case)
     try:
         kw = {}
-        if not (center is True and case.get("default_args")):
-            kw["center"] = center
-        if not (padv == 0 and case.get("default_args")):
-            kw["padding_value"] = padv
-        d.pad(tuple(ns), **kw)
-        impl = _state(d)
+        dflt = case.get("default_args") and _vmap(case)[1] == 0
+        if not (center is True and dflt):
+            kw["center"] = {"npbool": np.bool_(center), "int": int(center)}.get(case.get("centerform"), center)
+        if not (padv == 0 and dflt):
+            kw["padding_value"] = padr
+        nsform = case.get("nsform", "tuple")
+        nsa = (list(ns) if nsform == "list" else np.array(ns, dtype=np.int64) if nsform == "np64" else
+               np.array(ns, dtype=np.int32) if nsform == "np32" else tuple(np.int64(x) for x in ns) if nsform == "tuple64"
+               else tuple(ns))
+        if case.get("positional") and "center" in kw:
+            d.pad(nsa, *([kw["center"], kw["padding_value"]] if "padding_value" in kw else [kw["center"]]))
+        else:
+            d.pad(nsa, **kw)
+        impl = _state(d, case)
     except Exception as e:  # noqa: BLE001
         impl = "raised:" + type(e).__name__
     if model is None:
@@ -339,8 +602,9 @@ def case_pad(ctx, case, model=None):
         ctx.spec("pad: centred (margins differ by at most one) / appended (nothing in front)", inp, ok_split,
                  {"left": left.tolist(), "right": right.tolist()}, key="pad:split")
         box = [[int(-l), int(-l + n)] for l, n in zip(left, ns)]
-        spec_box(ctx, "pad", inp, old, o0, r0, d, box, padv)
+        spec_box(ctx, "pad", inp, old, o0, r0, d, box, padr)
     spec_provenance(ctx, "pad", inp, case, d)
+    ctx.spec("pad: caller's array untouched", inp, bool(np.array_equal(raw, old)), key="pad:source")
     for n, m in zip(case["shape"], ns):
         ctx.count("pad:%s:%s:%s" % ("centre" if center else "append", "grow" if m > n else "shrink" if m < n else "same",
                                     "odd" if (m - n) % 2 else "even"))
@@ -353,9 +617,23 @@ def case_pad(ctx, case, model=None):
 def case_trim(ctx, case, model=None):
     d, raw = _mk(case)
     cutoff, margin = case["cutoff"], case["margin"]
+    half = bool(case.get("half"))           # a cut-off strictly between the images of cutoff and cutoff+1: same answer
+    rc = _real(case, cutoff, half=half)
+    if not half and np.dtype(case.get("dtype", "float32")).kind == "f":
+        rc = float(_fwd(case, [cutoff])[0])   # exactly the stored value of that id (a tie with the data)
+    cform = case.get("cutform")
+    rca = np.float32(rc) if cform == "f4" and float(np.float32(rc)) == rc else np.float64(rc) if cform == "f8" else rc
+    ma = np.int64(margin) if case.get("marginform") == "np64" else margin
     inp = {"kind": "trim", **case}
+    logical = np.array(case["data"], dtype=np.int64).reshape(case["shape"])
+    old = np.array(raw).astype(raw.dtype.newbyteorder("=")) if raw.size else np.array(raw)
     try:
-        box = d.trim_box(cutoff, margin) if not case.get("default_margin") else d.trim_box(cutoff)
+        if case.get("default_margin"):
+            box = d.trim_box(rca)
+        elif case.get("kwform"):
+            box = d.trim_box(cutoff=rca, margin=ma)
+        else:
+            box = d.trim_box(rca, ma)
         impl = [[int(b.start), int(b.stop)] for b in box]
     except ValueError:
         impl = "err:ValueError"
@@ -364,7 +642,8 @@ def case_trim(ctx, case, model=None):
     if model is None:
         model = ctx.driver.call("c15.trimBox", **_margs(case), cutoff=cutoff, margin=margin)
     ctx.agree("trim_box", inp, impl, model)
-    above = np.argwhere(raw > cutoff)
+    ctx.spec("trim_box: the data are left as they were", inp, bool(np.array_equal(raw, old)), key="trim_box:source")
+    above = np.argwhere(logical > cutoff)
     if isinstance(impl, str):
         # "raises iff nothing is above the cut-off"
         ctx.spec("trim_box: raises only when nothing exceeds the cut-off", inp, len(above) == 0, impl, key="trim_box:raised")
@@ -385,18 +664,18 @@ def case_trim(ctx, case, model=None):
         ok2 = bool(np.all(starts >= 0) and np.all(stops <= np.array(raw.shape)) and np.all(starts < stops))
         ctx.count("trim:box-inside-data" if ok2 else "trim:box-outside-data")
         # trimming = adjust_box(trim_box): positions, extents, values
-        old = raw.copy()
         d.adjust_box(box)
-        o0, r0 = np.array(case["origin"]) / Q, np.array(case["rate"]) / Q
+        _, _, o0, r0 = _coords(case)
         spec_box(ctx, "trim", inp, old, o0, r0, d, impl, 0)
         spec_provenance(ctx, "trim", inp, case, d)
         kept = np.asarray(d.data)
         from collections import Counter
-        have, need = Counter(kept[kept > cutoff].tolist()), Counter(raw[raw > cutoff].tolist())
+        have, need = Counter(kept[kept > rc].tolist()), Counter(old[logical > cutoff].tolist())
         ctx.spec("trim: every value above the cut-off survives", inp, all(have[v] >= c for v, c in need.items()),
                  key="trim:values")
-    ctx.count("trim:margin=%s" % ("neg" if margin < 0 else margin))
+    ctx.count("trim:margin=%s" % ("neg" if margin < 0 else margin if margin < 4 else ">=4"))
     ctx.count("trim:ndim=%d" % raw.ndim)
+    ctx.count("trim:cutoff:" + ("between" if half else "tie"))
     if impl != [[0, n] for n in raw.shape]:
         ctx.distinct(("trim", case["shape"], case["data"], cutoff, margin))
     return impl
@@ -407,15 +686,25 @@ def case_mebox(ctx, case):
     from tme.matching_utils import minimum_enclosing_box
     d, raw = _mk(case)
     cutoff, geo = case["cutoff"], case.get("geometric", False)
+    rc = float(_fwd(case, [cutoff])[0])
     inp = {"kind": "mebox", **case}
-    above = np.argwhere(raw > cutoff)
+    logical = np.array(case["data"], dtype=np.int64).reshape(case["shape"])
+    old = np.array(raw).astype(raw.dtype.newbyteorder("=")) if raw.size else np.array(raw)
+    above = np.argwhere(logical > cutoff)
     if len(above) == 0:
         return
     try:
-        side = minimum_enclosing_box(coordinates=np.array(np.where(raw > cutoff)), use_geometric_center=geo)
-        box = d.minimum_enclosing_box(cutoff, use_geometric_center=geo)
-    except Exception as e:  # noqa: BLE001  (qhull on degenerate clouds)
-        ctx.count("mebox:raised:" + type(e).__name__)
+        side = minimum_enclosing_box(coordinates=np.array(np.where(logical > cutoff)), use_geometric_center=geo)
+    except Exception as e:  # noqa: BLE001  (qhull on degenerate clouds, geometric centre only)
+        ctx.count("mebox:oracle-raised:" + type(e).__name__)
+        if not geo:
+            ctx.agree("matching_utils.minimum_enclosing_box returns for a non-empty cloud", inp, type(e).__name__, "returns")
+        return
+    try:
+        box = d.minimum_enclosing_box(rc, use_geometric_center=geo)
+    except Exception as e:  # noqa: BLE001
+        ctx.spec("minimum_enclosing_box: returns a box when voxels exceed the cut-off", inp, False, type(e).__name__ + ": " + str(e)[:160],
+                 key="mebox:raised")
         return
     side = [int(s) for s in np.asarray(side).reshape(-1)]
     impl = [[int(b.start), int(b.stop)] for b in box]
@@ -433,9 +722,9 @@ def case_mebox(ctx, case):
     if geo:
         return
     # centered(): frame of the result (copy -> mebox -> adjust_box -> odd pad); the translation inside is interpolation
-    before = _state(d)
+    before = _state(d, case)
     try:
-        c, _shift = d.centered(cutoff)
+        c, _shift = d.centered(rc)
     except Exception as e:  # noqa: BLE001
         ctx.spec("centered: returns", inp, False, type(e).__name__, key="centered:raised")
         return
@@ -447,11 +736,14 @@ def case_mebox(ctx, case):
              bool(np.all(sh >= np.array(raw.shape)) and np.all(sh >= side[0]) and np.all(sh % 2 == 1)), list(c.shape),
              key="centered:shape")
     # origin moved by whole voxels so that old voxel (0,..) sits at index `left` of the new grid
-    o0, r0 = np.array(case["origin"]) / Q, np.array(case["rate"]) / Q
+    _, _, o0, r0 = _coords(case)
     left = (o0 - np.asarray(c.origin, dtype=np.float64)) / r0
     ctx.spec("centered: origin consistent with a whole-voxel box", inp, bool(np.all(left == np.round(left))),
              left.tolist(), key="centered:physical")
-    ctx.spec("centered: source untouched", inp, _state(d) == before and not np.shares_memory(c.data, d.data), key="centered:source")
+    ctx.spec("centered: sampling rate unchanged", inp,
+             bool(np.array_equal(np.asarray(c.sampling_rate, dtype=np.float64).reshape(-1), r0)), key="centered:rate")
+    ctx.spec("centered: source untouched", inp, _state(d, case) == before and bool(np.array_equal(raw, old))
+             and not np.shares_memory(c.data, d.data), key="centered:source")
     ctx.count("centered")
 
 
@@ -468,14 +760,45 @@ def case_resample(ctx, case):
     shape = case["shape"]
     inp = {"kind": "resample", **case}
     rng = np.random.default_rng(case.get("dataseed", 0))
-    raw = rng.integers(0, 5, size=shape).astype(case.get("dtype", "float32"))
+    raw0 = rng.integers(0, 5, size=shape).astype(case.get("dtype", "float32"))
+    raw = _lay(raw0.copy(), case.get("layout"))
     origin = np.array(case["origin"], dtype=np.float64) / Q
     old = np.array(case["old"], dtype=np.float64)
     new = case["new"]
-    d = Density(raw.copy(), origin=origin.copy(), sampling_rate=old.copy())
-    new_arg = new[0] if case.get("scalar_new") else tuple(new)
+
+    def f4ok(xs):
+        return all(float(np.float32(x)) == float(x) for x in xs)
+
+    def whole(xs):
+        return all(float(x) == int(x) for x in xs)
+    oldform, newform = case.get("oldform", "f8"), case.get("newform") or ("scalar" if case.get("scalar_new") else "tuple")
+    # both in float32: the ratio is then formed in float32 - only compared when it is exact there as well
+    if oldform == "f4" and newform in ("f4", "f4scalar"):
+        with np.errstate(all="ignore"):
+            if not all(Fraction(float(np.float32(o) / np.float32(n))) == Fraction(o) / Fraction(n) for o, n in zip(old, new)):
+                oldform = "f8"
+    old_arg = (old.astype(np.float32) if oldform == "f4" and f4ok(old) else
+               old.astype(np.int64) if oldform == "i8" and whole(old) else
+               [float(x) for x in old] if oldform == "list" else
+               float(old[0]) if oldform == "scalar" and len(set(old.tolist())) == 1 else old.copy())
+    iso_new = len(set(float(x) for x in new)) == 1
+    new_arg = (float(new[0]) if newform == "scalar" and iso_new else
+               int(new[0]) if newform == "iscalar" and iso_new and whole(new) else
+               np.float32(new[0]) if newform == "f4scalar" and iso_new and f4ok(new) else
+               [float(x) for x in new] if newform == "list" else
+               np.array(new, dtype=np.float64) if newform == "array" else
+               np.array(new, dtype=np.float32) if newform == "f4" and f4ok(new) else
+               np.array(new, dtype=np.int64) if newform == "i8" and whole(new) else tuple(float(x) for x in new))
+    origin_arg = tuple(float(x) for x in origin) if case.get("okind") == "tuple" else \
+        origin.astype(np.int64) if case.get("okind") == "i8" and whole(origin) else origin.copy()
+    d = Density(raw, origin=origin_arg, sampling_rate=old_arg)
     try:
-        r = d.resample(new_arg, method=case["method"], order=case.get("order", 1))
+        if case.get("positional"):
+            r = d.resample(new_arg, case["method"], case.get("order", 1))
+        elif case.get("default_method") and case["method"] == "spline" and case.get("order", 1) == 1:
+            r = d.resample(new_arg)
+        else:
+            r = d.resample(new_arg, method=case["method"], order=case.get("order", 1))
         impl = [int(x) for x in r.shape]
     except ValueError:
         r, impl = None, "err:ValueError"
@@ -495,6 +818,8 @@ def case_resample(ctx, case):
         ctx.agree("resample(extents)", inp, impl, want)
     if r is None:
         ctx.count("resample:raised")
+        if not near_tie and isinstance(want, list):
+            ctx.spec("resample: returns a density when the implied extents exist", inp, False, impl, key="resample:raised")
         return
     ctx.agree("resample(rate := new, origin kept)", inp,
               [bool(np.array_equal(np.asarray(r.sampling_rate, dtype=np.float64).reshape(-1), np.array(new, dtype=np.float64))),
@@ -508,12 +833,14 @@ def case_resample(ctx, case):
     ctx.spec("resample: origin kept", inp, bool(np.array_equal(np.asarray(r.origin, dtype=np.float64).reshape(-1), origin)),
              np.asarray(r.origin).tolist(), key="resample:origin")
     ctx.spec("resample: source untouched", inp,
-             bool(np.array_equal(d.data, raw) and np.array_equal(d.sampling_rate, old) and np.array_equal(d.origin, origin)),
+             bool(np.array_equal(d.data, raw0) and np.array_equal(raw, raw0) and np.array_equal(d.sampling_rate, old)
+                  and np.array_equal(d.origin, origin)),
              key="resample:source")
     ctx.spec("resample: result shares no buffer with the source", inp,
              not (np.shares_memory(r.data, d.data) or np.shares_memory(r.origin, d.origin)
                   or np.shares_memory(r.sampling_rate, d.sampling_rate)), key="resample:alias")
     ctx.count("resample:" + case["method"])
+    ctx.count("resample:rate-forms:%s->%s" % (oldform, newform))
     for v in exact_vals:
         f = v - int(v)
         ctx.count("resample:frac:" + ("0" if f == 0 else "1/2" if f == Fraction(1, 2) else "<1/2" if f < Fraction(1, 2) else ">1/2"))
@@ -558,93 +885,120 @@ def _shares(a, b):
             bool(np.shares_memory(a.sampling_rate, b.sampling_rate)), a.metadata is b.metadata]
 
 
+def _close_leaked(fname):
+    """Density.to_memmap leaves the descriptor of mkstemp open; close it so that long runs do not exhaust descriptors."""
+    try:
+        for fd in os.listdir("/proc/self/fd"):
+            try:
+                if os.readlink("/proc/self/fd/" + fd) == str(fname):
+                    os.close(int(fd))
+            except OSError:
+                pass
+    except OSError:
+        pass
+
+
+def _try_write(arr, v):
+    try:
+        arr[...] = v
+        return True
+    except Exception:  # noqa: BLE001   (read-only buffer)
+        return False
+
+
 @_guard
 def case_alias(ctx, case):
     """copies never share data with their source; which buffers are fresh (heap model)."""
-    from tme import Density
     inp = {"kind": "alias", **case}
-    raw = np.array(case["data"], dtype=np.int64).reshape(case["shape"]).astype(case.get("dtype", "float32"))
-    o = np.array(case["origin"], dtype=np.float64) / Q
-    r = np.array(case["rate"], dtype=np.float64) / Q
     md = {"k": [1, 2, 3]}
-    d = Density(raw, origin=o, sampling_rate=r, metadata=md)
+    d, raw = _mk(case, metadata=md)
+    o_arg, r_arg, _, _ = _coords(case)
 
-    class _Raw:  # the four objects handed to the constructor
-        data, origin, sampling_rate, metadata = raw, o, r, md
     # the constructor keeping the caller's array and adjust_box allocating new buffers are facts the heap model
     # mirrors, but the property does not claim them: they are counted, not compared
-    ctx.count("alias:construct:" + ("as-model" if _shares(d, _Raw) == ctx.driver.call("c15.alias", which="construct") else "differs"))
+    ctx.count("alias:construct:data-" + ("kept" if np.shares_memory(d.data, raw) else "copied"))
     for name, mk in (("copy", lambda x: x.copy()), ("empty", lambda x: x.empty)):
+        d, raw = _mk(case, metadata={"k": [1, 2, 3]})
         c = mk(d)
         sh = _shares(c, d)
         ctx.agree(f"alias({name})", inp, sh, ctx.driver.call("c15.alias", which=name))
         ctx.spec(f"{name}: shares no buffer with its source", inp, not any(sh), sh, key=f"{name}:alias")
         if name == "copy":
-            ctx.spec("copy: equal content", inp, _state(c) == _state(d) and c.metadata == d.metadata, key="copy:content")
+            ctx.spec("copy: equal content", inp, _state(c, case) == _state(d, case) and c.metadata == d.metadata
+                     and bool(np.array_equal(np.asarray(c.data), np.asarray(d.data))), key="copy:content")
+        else:   # (the content of `empty` is not part of the property: counted only)
+            ctx.count("alias:empty:" + ("zeros-same-frame" if tuple(c.shape) == tuple(d.shape) and not np.any(np.asarray(c.data))
+                                        and _state(c, {})["origin"] == _state(d, {})["origin"] else "other"))
         # writes through one object are invisible through the other
-        before_d = (_state(d), repr(d.metadata))
-        if c.data.size:
-            c.data.reshape(-1)[...] = 77
-        c.origin[...] = 1234.5
-        c.sampling_rate[...] = 99.0
+        before_d = (_state(d, case), repr(d.metadata))
+        wrote = _try_write(c.data, 77) if c.data.size else True
+        wrote = _try_write(c.origin, 1234.5) and wrote
+        wrote = _try_write(c.sampling_rate, 99.0) and wrote
         c.metadata["k2"] = 1
         if "k" in c.metadata:
             c.metadata["k"].append(9)
-        ctx.spec(f"{name}: writing through the copy leaves the source unchanged", inp, (_state(d), repr(d.metadata)) == before_d,
-                 key=f"{name}:independent")
+        if not wrote:
+            ctx.count(f"alias:{name}:not-writable")
+        ctx.spec(f"{name}: writing through the copy leaves the source unchanged", inp,
+                 (_state(d, case), repr(d.metadata)) == before_d, key=f"{name}:independent")
+        # a box operation on the copy leaves the source where it was, and the other way round
+        d, raw = _mk(case, metadata={"k": [1, 2, 3]})
         c2 = mk(d)
-        before_c = (_state(c2), repr(c2.metadata))
-        if d.data.size:
-            d.data.reshape(-1)[...] = 55
-        d.origin[...] = -3.5
-        d.sampling_rate[...] = 7.0
-        d.metadata["k"].append(8)
-        ctx.spec(f"{name}: writing through the source leaves the copy unchanged", inp, (_state(c2), repr(c2.metadata)) == before_c,
+        before_c, before_d = (_state(c2, case), repr(c2.metadata)), _state(d, case)
+        c3 = mk(d)
+        c3.adjust_box(tuple(slice(-1, n + 1) for n in c3.shape), pad_kwargs={"constant_values": 5})
+        c3.pad(tuple(n + 3 for n in c3.shape), center=True)
+        ctx.spec(f"{name}: box operations on the copy leave the source unchanged", inp, _state(d, case) == before_d,
                  key=f"{name}:independent")
-        # restore
-        d = Density(raw, origin=o, sampling_rate=r, metadata=md)
-        raw[...] = np.array(case["data"], dtype=np.int64).reshape(case["shape"])
-        o[...] = np.array(case["origin"], dtype=np.float64) / Q
-        r[...] = np.array(case["rate"], dtype=np.float64) / Q
-        md.clear(); md["k"] = [1, 2, 3]
-    # the same for a memory-mapped source (Density.to_memmap / from_file(use_memmap=True)): the copy is an ordinary array
-    if raw.size:
-        dm = Density(raw.copy(), origin=o.copy(), sampling_rate=r.copy(), metadata={"k": [1, 2, 3]})
+        d.adjust_box(tuple(slice(1, n + 2) for n in d.shape), pad_kwargs={"constant_values": 3})
+        ctx.spec(f"{name}: box operations on the source leave the copy unchanged", inp,
+                 (_state(c2, case), repr(c2.metadata)) == before_c, key=f"{name}:independent")
+        d, raw = _mk(case, metadata={"k": [1, 2, 3]})
+        c2 = mk(d)
+        before_c = (_state(c2, case), repr(c2.metadata))
+        if d.data.size:
+            _try_write(d.data, 55)           # a read-only source cannot be written: nothing to observe then
+        _try_write(d.origin, -3.5)
+        _try_write(d.sampling_rate, 7.0)
+        d.metadata["k"].append(8)
+        ctx.spec(f"{name}: writing through the source leaves the copy unchanged", inp, (_state(c2, case), repr(c2.metadata)) == before_c,
+                 key=f"{name}:independent")
+    # the same for a source turned into a memory map by the library itself (Density.to_memmap / from_file(use_memmap=True)):
+    # the copy is an ordinary array.  Calling to_memmap twice keeps the first map.
+    if case.get("to_memmap") and len(case["data"]):
+        dm, raw = _mk(case, metadata={"k": [1, 2, 3]})
         fname = None
         try:
             dm.to_memmap()
             fname = getattr(dm.data, "filename", None)
+            if fname and case.get("layout") not in ("memmap", "memmap_c"):
+                _FILES.append(str(fname))
+                _close_leaked(fname)
+            first = dm.data
+            dm.to_memmap()
+            inpm = dict(inp, source="to_memmap")
+            ctx.count("alias:to_memmap:" + ("same-content" if dm.data is first and _state(dm, case) == _state(_mk(case)[0], case) else "other"))
             cm = dm.copy()
             shm_ = _shares(cm, dm)
-            inpm = dict(inp, source="memmap")
             ctx.spec("copy: shares no buffer with its source", inpm, not any(shm_), shm_, key="copy:alias")
-            ctx.spec("copy: equal content", inpm, _state(cm) == _state(dm), key="copy:content")
-            before_m = _state(dm)
-            try:
-                cm.data.reshape(-1)[...] = 77
-                wrote = True
-            except Exception:  # noqa  (a read-only view of the source's file is not an independent copy)
-                wrote = False
-            ctx.spec("copy: writing through the copy leaves the source unchanged", inpm, wrote and _state(dm) == before_m, key="copy:independent")
-            ctx.count("alias:memmap-source")
+            ctx.spec("copy: equal content", inpm, _state(cm, case) == _state(dm, case), key="copy:content")
+            before_m = _state(dm, case)
+            wrote = _try_write(cm.data, 77)   # a read-only view of the source's file is not an independent copy
+            ctx.spec("copy: the copy is writable and writing through it leaves the source unchanged", inpm,
+                     wrote and _state(dm, case) == before_m, key="copy:independent")
+            ctx.count("alias:to_memmap-source")
         finally:
-            if fname and os.path.exists(str(fname)):
-                try:
-                    del dm, cm
-                except Exception:  # noqa
-                    pass
-                try:
-                    os.remove(str(fname))
-                except OSError:
-                    pass
+            dm = cm = first = None
     # adjust_box in place: fresh data/origin, same rate/metadata objects
+    d, raw = _mk(case, metadata={"k": [1, 2, 3]})
     e = d.copy()
     class _Old:
         data, origin, sampling_rate, metadata = e.data, e.origin, e.sampling_rate, e.metadata
     e.adjust_box(tuple(slice(0, n) for n in e.shape))
     ctx.count("alias:adjust_box:" + ("as-model" if _shares(e, _Old) == ctx.driver.call("c15.alias", which="adjust") else "differs"))
-    ctx.count("alias:ndim=%d" % raw.ndim)
-    ctx.distinct(("alias", case["shape"], case.get("dtype")))
+    ctx.count("alias:ndim=%d" % len(case["shape"]))
+    ctx.count("alias:layout:" + str(case.get("layout", "C")))
+    ctx.distinct(("alias", case["shape"], case.get("dtype"), case.get("layout")))
 
 
 # ----------------------------------------------------------------------------------------------
@@ -655,6 +1009,8 @@ def gen_history(rng, case, length, maxvox=1500):
     ops = []
     shape = list(case["shape"])
     data0 = np.array(case["data"])
+    zero_ok = _vmap(case)[1] == 0        # the library's default pad value 0 is the image of the id 0
+    pads = [0, 1, 1] if case.get("dtype") in UDTYPES else [0, -1, -5]
     for _ in range(length):
         k = str(rng.choice(["adjust", "pad", "trim", "copy"], p=[0.4, 0.3, 0.2, 0.1]))
         big = int(np.prod([max(s, 1) for s in shape])) > maxvox
@@ -662,13 +1018,19 @@ def gen_history(rng, case, length, maxvox=1500):
             box = gen_box(rng, shape)
             if big:
                 box = [[int(rng.integers(0, max(n // 2, 1))), int(max(n // 2, 1) + rng.integers(0, 2))] for n in shape]
-            ops.append({"op": "adjust", "box": box, "pad": int(rng.choice([0, -1, -5]))})
+            op = {"op": "adjust", "box": box, "pad": int(rng.choice(pads))}
+            if zero_ok and rng.random() < 0.3:      # pad_kwargs left out after having been given: the default again
+                op.update(pad=0, default=True)
+            ops.append(op)
             shape = [max(b[1] - b[0], 0) if b[1] >= 0 else None for b in box]
             if None in shape:   # cannot happen: gen_box(quirk=False)
                 shape = [1] * len(box)
         elif k == "pad":
             ns = [int(max(0, n + rng.integers(-3, 5))) for n in shape]
-            ops.append({"op": "pad", "newshape": ns, "center": bool(rng.random() < 0.7), "pad": int(rng.choice([0, -1, -5]))})
+            op = {"op": "pad", "newshape": ns, "center": bool(rng.random() < 0.7), "pad": int(rng.choice(pads))}
+            if zero_ok and rng.random() < 0.3:
+                op.update(pad=0, default=True)      # padding_value (and center, when True) left out
+            ops.append(op)
             shape = ns
         elif k == "trim":
             lowq = np.sort(data0.reshape(-1))[: max(1, data0.size // 2)]
@@ -676,30 +1038,60 @@ def gen_history(rng, case, length, maxvox=1500):
             ops.append({"op": "trim", "cutoff": cutoff, "margin": int(rng.integers(0, 3)), "pad": 0})
             shape = None
         else:
-            ops.append({"op": "copy"})
+            r = rng.random()
+            ops.append({"op": "copy", "how": "memmap" if r < 0.12 else "numpy" if r < 0.24 else "copy"})
         if shape is None:
             shape = [max(1, s // 2 + 1) for s in case["shape"]]   # unknown after a trim; only used to pick parameters
     return ops
 
 
-def apply_real(d, op):
+def apply_real(d, op, case=None):
     """Apply one history operation to the real object; returns (object, box used or None, raised?)."""
+    case = case or {}
     if op["op"] == "adjust":
-        d.adjust_box(tuple(slice(b[0], b[1]) for b in op["box"]), pad_kwargs={"constant_values": op["pad"]})
+        sl = tuple(slice(b[0], b[1]) for b in op["box"])
+        if op.get("default"):
+            d.adjust_box(sl)
+        else:
+            d.adjust_box(sl, pad_kwargs={"constant_values": _real(case, op["pad"])})
         return d, op["box"], False
     if op["op"] == "pad":
         before_o = np.asarray(d.origin, dtype=np.float64).copy()
         r = np.asarray(d.sampling_rate, dtype=np.float64)
-        d.pad(tuple(op["newshape"]), center=op["center"], padding_value=op["pad"])
+        if op.get("default"):
+            d.pad(tuple(op["newshape"]), **({} if op["center"] else {"center": False}))
+        else:
+            d.pad(tuple(op["newshape"]), center=op["center"], padding_value=_real(case, op["pad"]))
         left = np.round((before_o - np.asarray(d.origin, dtype=np.float64)) / r).astype(np.int64)
         return d, [[int(-l), int(-l + n)] for l, n in zip(left, op["newshape"])], False
     if op["op"] == "trim":
+        rc = _real(case, op["cutoff"])
+        if np.dtype(case.get("dtype", "float32")).kind == "f":
+            rc = float(_fwd(case, [op["cutoff"]])[0])
         try:
-            box = d.trim_box(op["cutoff"], op["margin"])
+            box = d.trim_box(rc, op["margin"])
         except ValueError:
             return d, None, True
         d.adjust_box(box)
         return d, [[int(b.start), int(b.stop)] for b in box], False
+    how = op.get("how", "copy")
+    if how == "memmap":          # same object, voxels moved into a read-only memory map
+        if d.data.size == 0:     # (numpy cannot map an empty file; to_memmap is not one of the box operations)
+            return d, None, False
+        was = isinstance(d.data, np.memmap)
+        d.to_memmap()
+        if not was and isinstance(d.data, np.memmap):
+            _FILES.append(str(d.data.filename))
+            _close_leaked(d.data.filename)
+        return d, None, False
+    if how == "numpy":
+        # (to_numpy is not one of the property's operations.  An in-memory array of class numpy.memmap without a file -
+        # what memmap.copy() returns, e.g. inside Density.copy() - makes it raise TypeError from os.remove(None);
+        # that is outside C15 and skipped here.)
+        if isinstance(d.data, np.memmap) and getattr(d.data, "filename", None) is None:
+            return d, None, False
+        d.to_numpy()
+        return d, None, False
     return d.copy(), None, False
 
 
@@ -710,20 +1102,28 @@ def case_history(ctx, case):
     inp = {"kind": "history", **case}
     d, raw = _mk(case)
     nd = raw.ndim
+    old = np.array(raw).astype(raw.dtype.newbyteorder("=")) if raw.size else np.array(raw)
     states = []
     # spec-level tracking in the coordinates of the initial array: surviving window and cumulative offset
     wlo = np.zeros(nd, dtype=np.int64); whi = np.array(raw.shape, dtype=np.int64); off = np.zeros(nd, dtype=np.int64)
     crashed = None
-    for op in case["ops"]:
+    for k, op in enumerate(case["ops"]):
+        prev = np.array(d.data)
+        prev = prev.astype(prev.dtype.newbyteorder("=")) if prev.size else prev
+        prev_o = np.asarray(d.origin, dtype=np.float64).reshape(-1).copy()
+        prev_r = np.asarray(d.sampling_rate, dtype=np.float64).reshape(-1).copy()
         try:
-            d, box, raised = apply_real(d, op)
+            d, box, raised = apply_real(d, op, case)
         except Exception as e:  # noqa: BLE001
             crashed = type(e).__name__
             break
         if raised:
             states.append("raised")
             continue
-        states.append(_state(d))
+        states.append(_state(d, case))
+        if box is not None and all(b[1] >= 0 for b in box):
+            fill = 0 if (op.get("default") or op["op"] == "trim") else _real(case, op["pad"])
+            spec_box(ctx, "history", {**inp, "at_step": k}, prev, prev_o, prev_r, d, box, fill)
         if op["op"] in ("adjust", "pad"):
             want = list(op["newshape"]) if op["op"] == "pad" else [max(b[1] - b[0], 0) for b in op["box"]]
             ctx.spec("history: every operation yields exactly the requested extents", inp, [int(x) for x in d.shape] == want,
@@ -743,9 +1143,9 @@ def case_history(ctx, case):
         data0 = np.array(case["data"], dtype=np.int64)
         pos_of = np.full(data0.size + 2, -1, dtype=np.int64)
         pos_of[data0] = np.arange(data0.size)
-        vals = arr.reshape(-1)
-        isid = (vals >= 1) & (vals <= data0.size)
-        tr = np.where(isid, pos_of[np.clip(vals, 0, data0.size).astype(np.int64)], -1)
+        vals = _inv(case, arr).reshape(-1)
+        isid = (vals >= 1) & (vals <= data0.size) & (vals == np.round(vals))
+        tr = np.where(isid, pos_of[np.clip(np.nan_to_num(vals, nan=0.0), 0, data0.size).astype(np.int64)], -1)
         ctx.agree("history(trace)", inp, [int(x) for x in tr], m["trace"])
         spec_provenance(ctx, "history", inp, case, d)
         # retained set = the voxels whose initial index stayed inside every box
@@ -757,7 +1157,8 @@ def case_history(ctx, case):
         ctx.spec("history: exactly the voxels that stayed inside every box are retained", inp, got_ids == want_ids,
                  {"missing": sorted(want_ids - got_ids)[:5], "extra": sorted(got_ids - want_ids)[:5]}, key="history:retained")
     # cumulative origin: origin_final = origin_0 + offset * rate
-    o0, r0 = np.array(case["origin"]) / Q, np.array(case["rate"]) / Q
+    _, _, o0, r0 = _coords(case)
+    ctx.spec("history: the array handed to the constructor is left as it was", inp, bool(np.array_equal(raw, old)), key="history:source")
     if not np.all(whi > wlo):
         ctx.count("history:nothing-retained")
     else:
@@ -767,7 +1168,8 @@ def case_history(ctx, case):
                  {"origin": np.asarray(d.origin).tolist(), "want": (o0 + off * r0).tolist()}, key="history:physical")
     ctx.count("history:len=%d" % len(case["ops"]))
     for op, s in zip(case["ops"], states):
-        ctx.count("history:op:" + op["op"] + (":raised" if s == "raised" else ""))
+        ctx.count("history:op:" + op["op"] + (":" + op["how"] if op.get("how", "copy") != "copy" else "")
+                  + (":default-args" if op.get("default") else "") + (":raised" if s == "raised" else ""))
     ctx.distinct(("history", case["shape"], case["ops"]))
 
 
@@ -776,28 +1178,277 @@ def case_history(ctx, case):
 # ----------------------------------------------------------------------------------------------
 @_guard
 def case_float(ctx, case):
+    """arbitrary (non-dyadic) float origins / rates of any magnitude.  Tolerance from the rounding model: every box
+    operation forms start*rate and subtracts it (2 roundings), reading a coordinate is 2 more, each at most eps/2 times
+    the largest magnitude M that can occur on that axis: |error| <= (ops + 2) * eps * M; a factor 8 is allowed on top.
+    (One voxel is `rate`, so a position that is off by a voxel is far outside whenever M / rate < 2^40.)"""
     from tme import Density
     inp = {"kind": "float", **case}
     shape = case["shape"]
     n = int(np.prod(shape))
-    raw = (np.arange(n) + 1).reshape(shape).astype("float32")
+    raw = _lay((np.arange(n) + 1).reshape(shape).astype(case.get("dtype", "float32")), case.get("layout"))
     o0 = np.array(case["forigin"], dtype=np.float64); r0 = np.array(case["frate"], dtype=np.float64)
-    d = Density(raw.copy(), origin=o0.copy(), sampling_rate=r0.copy())
+    d = Density(raw, origin=o0.copy(), sampling_rate=r0.copy())
     off = np.zeros(len(shape), dtype=np.int64)
+    reach = np.array(shape, dtype=np.float64)
+    nops = 0
     for op in case["ops"]:
         d, box, raised = apply_real(d, op)
         if box is not None and not raised:
             off += np.array([b[0] for b in box], dtype=np.int64)
+            reach = np.maximum(reach, np.abs(off) + np.array([max(abs(b[0]), abs(b[1])) for b in box]))
+            nops += 1
     arr = np.asarray(d.data)
     vals = arr.reshape(-1)
     isid = vals >= 1
     J = np.indices(arr.shape).reshape(len(shape), -1)[:, isid] if arr.size else np.zeros((len(shape), 0))
     idx0 = np.array(np.unravel_index((vals[isid] - 1).astype(np.int64), shape)).reshape(len(shape), -1)
     pn = _phys_float(d.origin, d.sampling_rate, J); po = _phys_float(o0, r0, idx0)
-    scale = np.maximum(1.0, np.abs(po))
-    ok = bool(np.all(np.abs(pn - po) <= 1e-6 * scale)) if pn.size else True
-    ctx.spec("float coordinates: retained values keep their physical coordinate (rel 1e-6)", inp, ok, key="float:physical")
+    M = np.abs(o0) + (reach + np.array(shape)) * np.abs(r0)
+    tol = 8 * (nops + 2) * np.finfo(np.float64).eps * M
+    ok = bool(np.all(np.abs(pn - po) <= tol[:, None])) if pn.size else True
+    det = None
+    if not ok:
+        k = int(np.argwhere(np.any(np.abs(pn - po) > tol[:, None], axis=0))[0][0])
+        det = {"new_physical": pn[:, k].tolist(), "old_physical": po[:, k].tolist(), "tolerance": tol.tolist()}
+    ctx.spec("float coordinates: retained values keep their physical coordinate (rounding-model tolerance)", inp, ok, det, key="float:physical")
+    ctx.spec("float coordinates: sampling rate unchanged", inp,
+             bool(np.array_equal(np.asarray(d.sampling_rate, dtype=np.float64).reshape(-1), r0)), key="float:rate")
     ctx.count("float:history")
+    ctx.count("float:magnitude:origin~1e%d,rate~1e%d" % (int(np.round(np.log10(max(np.abs(o0).max(), 1e-30)))),
+                                                       int(np.round(np.log10(np.abs(r0).max())))))
+
+
+# ----------------------------------------------------------------------------------------------
+# extents beyond the small model-compared ones: clauses on the real outputs only
+# ----------------------------------------------------------------------------------------------
+@_guard
+def case_big(ctx, case):
+    """case: shape, dtype, layout, origin / rate (units), op in adjust / pad / trim with its parameters.  Voxel ids are
+    1..n in C order (trim: zero outside `blob`), so nothing bulky is stored in the case."""
+    from tme import Density
+    inp = {"kind": "big", **case}
+    shape = case["shape"]
+    n = int(np.prod(shape))
+    ids = (np.arange(n) + 1).reshape(shape)
+    if case["op"] == "trim":
+        keepm = np.zeros(shape, dtype=bool)
+        if case.get("blob"):
+            keepm[tuple(slice(a, b) for a, b in case["blob"])] = True
+        for pt in case.get("points", []):       # isolated voxels
+            keepm[tuple(pt)] = True
+        ids = np.where(keepm, ids, 0)
+    raw = _lay(ids.astype(case["dtype"]), case.get("layout"))
+    old = np.array(raw).astype(raw.dtype.newbyteorder("=")) if raw.size else np.array(raw)
+    origin, rate, o0, r0 = _coords(case)
+    d = Density(raw, origin=origin, sampling_rate=rate)
+    padv = case.get("pad", 0)
+    try:
+        if case["op"] == "adjust":
+            box = case["box"]
+            d.adjust_box(tuple(slice(b[0], b[1]) for b in box), pad_kwargs={"constant_values": padv})
+        elif case["op"] == "pad":
+            d.pad(tuple(case["newshape"]), center=case["center"], padding_value=padv)
+            left = (o0 - np.asarray(d.origin, dtype=np.float64).reshape(-1)) / r0
+            ctx.spec("pad: origin moves by a whole number of voxels", inp, bool(np.all(left == np.round(left))), left.tolist(), key="pad:physical")
+            left = np.round(left).astype(np.int64)
+            right = np.array(case["newshape"]) - np.array(shape) - left
+            ctx.spec("pad: centred (margins differ by at most one) / appended (nothing in front)", inp,
+                     bool(np.all((right - left >= 0) & (right - left <= 1))) if case["center"] else bool(np.all(left == 0)),
+                     {"left": left.tolist(), "right": right.tolist()}, key="pad:split")
+            box = [[int(-l), int(-l + m)] for l, m in zip(left, case["newshape"])]
+            ctx.spec("pad: exactly the requested extents", inp, list(d.shape) == list(case["newshape"]), list(d.shape), key="pad:extent")
+        else:
+            b = d.trim_box(case["cutoff"], case["margin"])
+            box = [[int(x.start), int(x.stop)] for x in b]
+            above = np.argwhere(old > case["cutoff"])
+            starts = np.array([x[0] for x in box]); stops = np.array([x[1] for x in box])
+            ctx.spec("trim_box: box contains every voxel above the cut-off", inp,
+                     bool(np.all(above >= starts[None, :]) and np.all(above < stops[None, :])), box, key="trim_box:contains")
+            d.adjust_box(b)
+            padv = 0
+    except Exception as e:  # noqa: BLE001
+        ctx.spec("large extents: the operation returns", inp, False, type(e).__name__ + ": " + str(e)[:200], key=case["op"] + ":raised")
+        return
+    tag = {"adjust": "adjust_box", "pad": "pad", "trim": "trim"}[case["op"]]
+    spec_box(ctx, tag, inp, old, o0, r0, d, box, padv)
+    ctx.count("big:" + case["op"] + ":ndim=%d" % len(shape))
+    ctx.count("big:largest-extent>=%d" % (2 ** int(np.log2(max(max(d.shape), 1)))))
+    ctx.distinct(("big", case["op"], shape, box))
+
+
+def _gen_big(rng, huge=None, op=None):
+    nd = int(huge or rng.choice([1, 2, 3]))
+    r = rng.random()       # voxel counts: hundreds-thousands / beyond 10 000 / beyond 100 000 / (huge) beyond 1 000 000
+    hi = ({1: 400, 2: 60, 3: 24} if r < 0.5 else {1: 30000, 2: 170, 3: 32} if r < 0.9 else {1: 250000, 2: 500, 3: 64})[nd]
+    if huge:
+        hi = {1: 1300000, 2: 1150, 3: 110}[nd]
+    shape = [int(x) for x in rng.integers(int(hi * (0.95 if huge else 0.7)), hi + 1, size=nd)]
+    case = {"shape": shape, "dtype": str(rng.choice(["float32", "float64", "int32"])),
+            "layout": str(rng.choice(["C", "C"] + LAYOUTS)), "origin": [int(x) for x in rng.integers(-2**20, 2**20, size=nd)],
+            "rate": [int(x) for x in rng.integers(1, 200, size=nd)], "okind": str(rng.choice(OKINDS)), "rkind": str(rng.choice(RKINDS)),
+            "op": op or str(rng.choice(["adjust", "pad", "trim"])), "pad": int(rng.choice([0, -1, -7]))}
+    far = [130, 260, 33000, 70000]          # differences past 2^7, 2^8, 2^15, 2^16
+    if case["op"] == "adjust":
+        box = []
+        for n in shape:
+            s = int(rng.integers(-n, n)); e = int(rng.integers(max(s, 0) + 1, n + 40))
+            if huge:     # keep most of the voxels
+                s = int(rng.integers(-20, 20)); e = n + int(rng.integers(-20, 20))
+            box.append([s, e])
+        if nd == 1:
+            r = rng.random()
+            if r < 0.5:
+                box[0][1] = max(box[0][0], 0) + shape[0] + int(rng.choice(far)) + int(rng.integers(0, 5))
+            elif r < 0.7:
+                box[0][0] = -int(rng.choice(far)) - int(rng.integers(0, 5))
+        case["box"] = box
+    elif case["op"] == "pad":
+        ns = [int(max(1, n + rng.integers(-n // 2 if not huge else -20, 60))) for n in shape]
+        if nd == 1 and rng.random() < 0.6:
+            ns[0] = shape[0] + int(rng.choice(far)) + int(rng.integers(0, 5))
+        case.update(newshape=ns, center=bool(rng.random() < 0.7))
+    else:
+        blob = []
+        for n in shape:
+            a = int(rng.integers(0, n)); b = int(rng.integers(a + 1, n + 1))
+            if huge:
+                a = int(rng.integers(0, 30)); b = n - int(rng.integers(0, 30))
+            blob.append([a, b])
+        case.update(blob=blob, cutoff=0, margin=int(rng.choice([0, 1, 5, 130, 300])))
+        if huge or rng.random() < 0.5:       # a few isolated voxels instead of a filled box
+            case.pop("blob")
+            case.update(points=[[int(rng.integers(0, n)) for n in shape] for _ in range(int(rng.integers(1, 5)))],
+                        margin=int(rng.choice([0, 0, 1])))
+    return case
+
+
+# ----------------------------------------------------------------------------------------------
+# histories that contain resampling: the bookkeeping of every later operation starts from what resample left
+# ----------------------------------------------------------------------------------------------
+@_guard
+def case_rehistory(ctx, case):
+    """case: shape, origin (units of 1/Q), rate (floats, dyadic), ops: resample (per-axis power-of-two factors) / adjust /
+    pad / copy.  Values are interpolated by resample and not followed; extents, origin and rate are, exactly."""
+    from tme import Density
+    inp = {"kind": "rehistory", **case}
+    shape = list(case["shape"])
+    rng = np.random.default_rng(case.get("dataseed", 0))
+    raw = _lay(rng.integers(0, 5, size=shape).astype(case.get("dtype", "float32")), case.get("layout"))
+    E_o = [Fraction(int(x), Q) for x in case["origin"]]
+    E_r = [Fraction(float(x)) for x in case["rate"]]
+    d = Density(raw, origin=np.array([float(x) for x in E_o]), sampling_rate=np.array([float(x) for x in E_r]))
+
+    def fr(a):
+        return [Fraction(float(x)) for x in np.asarray(a, dtype=np.float64).reshape(-1)]
+    U = 4096           # the model's common unit 2^-12 for origin and rates
+
+    def inU(xs):
+        return [int(x * U) if (x * U).denominator == 1 else float(x * U) for x in xs]
+    mops, real_states = [], []
+    rr_ = list(E_r)
+    for op in case["ops"]:      # the same history for the Lean model (rates as numerators over 2^-12)
+        if op["op"] == "resample":
+            rr_ = [r * Fraction(2) ** int(e) for r, e in zip(rr_, op["log2"])]
+            mops.append({"op": "resample", "newrate": inU(rr_)})
+        else:
+            mops.append({k_: v for k_, v in op.items() if k_ in ("op", "box", "newshape", "center")})
+    model = ctx.driver.call("c15.geoRun", shape=shape, origin=inU(E_o), rate=inU(E_r), ops=mops)
+    for k, op in enumerate(case["ops"]):
+        at = {"step": k, "op": op}
+        try:
+            if op["op"] == "resample":
+                new = [float(r * Fraction(2) ** int(e)) for r, e in zip(E_r, op["log2"])]
+                arg = new[0] if op.get("scalar") and len(set(new)) == 1 else tuple(new)
+                d = d.resample(arg, method=op["method"], order=op.get("order", 1))
+                exact = [Fraction(n) * r / Fraction(nw) for n, r, nw in zip(shape, E_r, new)]
+                got = [int(x) for x in d.shape]
+                ctx.spec("history with resampling: extents = round(n * old/new)", inp,
+                         len(got) == len(shape) and all(abs(Fraction(g) - v) <= Fraction(1, 2) for g, v in zip(got, exact)),
+                         {**at, "shape": got, "exact": [float(v) for v in exact]}, key="rehistory:extent")
+                parts = [_ratio_parts(float(r), nw) for r, nw in zip(E_r, new)]
+                m = ctx.driver.call("c15.resample", shape=shape, origin=[0] * len(shape), rate=[p[0] for p in parts],
+                                    newrate=[p[1] for p in parts])
+                ctx.agree("resample(extents) inside a history", {**inp, "at": at}, got, m["shape"])
+                E_r = [Fraction(x) for x in new]
+                shape = got
+            elif op["op"] == "adjust":
+                d.adjust_box(tuple(slice(b[0], b[1]) for b in op["box"]))
+                E_o = [o + b[0] * r for o, b, r in zip(E_o, op["box"], E_r)]
+                want = [max(b[1] - b[0], 0) for b in op["box"]]
+                ctx.spec("history with resampling: exactly the requested extents", inp, [int(x) for x in d.shape] == want,
+                         {**at, "shape": [int(x) for x in d.shape]}, key="rehistory:extent")
+                shape = [int(x) for x in d.shape]
+            elif op["op"] == "pad":
+                before = fr(d.origin)
+                d.pad(tuple(op["newshape"]), center=op["center"])
+                left = [(b - a) / r for a, b, r in zip(fr(d.origin), before, E_r)]
+                right = [Fraction(m - n) - l for m, n, l in zip(op["newshape"], shape, left)]
+                okp = all(l.denominator == 1 for l in left) and (all(0 <= r_ - l <= 1 for l, r_ in zip(left, right)) if op["center"]
+                                                                 else all(l == 0 for l in left))
+                ctx.spec("history with resampling: pad moves the origin by its front margin in voxels of the current rate", inp, okp,
+                         {**at, "left": [float(l) for l in left]}, key="rehistory:origin")
+                ctx.spec("history with resampling: exactly the requested extents", inp, [int(x) for x in d.shape] == list(op["newshape"]),
+                         {**at, "shape": [int(x) for x in d.shape]}, key="rehistory:extent")
+                E_o = fr(d.origin) if okp else E_o
+                shape = [int(x) for x in d.shape]
+            else:
+                d = d.copy()
+        except Exception as e:  # noqa: BLE001
+            ctx.spec("history with resampling: operations return", inp, False, {**at, "raised": type(e).__name__ + ": " + str(e)[:160]},
+                     key="rehistory:raised")
+            return
+        ctx.spec("history with resampling: origin = what the property prescribes after every step", inp, fr(d.origin) == E_o,
+                 {**at, "origin": np.asarray(d.origin).tolist(), "want": [float(x) for x in E_o]}, key="rehistory:origin")
+        ctx.spec("history with resampling: rate = the last rate asked for", inp, fr(d.sampling_rate) == E_r,
+                 {**at, "rate": np.asarray(d.sampling_rate).tolist(), "want": [float(x) for x in E_r]}, key="rehistory:rate")
+        ctx.count("rehistory:op:" + op["op"])
+        real_states.append({"shape": [int(x) for x in d.shape], "origin": inU(fr(d.origin)), "rate": inU(fr(d.sampling_rate))})
+    ctx.agree("history with resampling(states)", inp, real_states, model)
+    ctx.distinct(("rehistory", case["shape"], case["ops"]))
+
+
+def _gen_rehistory(rng, length):
+    nd = int(rng.choice([1, 2, 3]))
+    cap = {1: 48, 2: 20, 3: 10}[nd]
+    shape = [int(x) for x in rng.integers(2, cap // 2 + 1, size=nd)]
+    rate = [float(rng.choice([1, 3, 5])) * 2.0 ** int(rng.integers(-2, 3)) for _ in range(nd)]
+    case = {"shape": list(shape), "origin": [int(x) for x in rng.integers(-400, 401, size=nd)], "rate": rate,
+            "dtype": str(rng.choice(["float32", "float64"])), "layout": str(rng.choice(["C", "C"] + LAYOUTS)),
+            "dataseed": int(rng.integers(0, 1000)), "ops": []}
+    for i in range(length):
+        k = str(rng.choice(["resample", "adjust", "pad", "copy"], p=[0.4, 0.3, 0.2, 0.1])) if i else "resample"
+        if k == "resample":
+            lg = []
+            for n in shape:
+                opts = [0]
+                if 2 * n <= cap:
+                    opts.append(-1)       # finer: twice as many voxels
+                if n >= 2:
+                    opts.append(1)        # coarser
+                if n >= 4:
+                    opts.append(2)
+                lg.append(int(rng.choice(opts)))
+            if rng.random() < 0.2:
+                lg = [lg[0]] * nd if all((e != -1 or 2 * n <= cap) and (e < 1 or n >= 2 ** e) for n, e in zip(shape, [lg[0]] * nd)) else lg
+            case["ops"].append({"op": "resample", "log2": lg, "method": str(rng.choice(["spline", "fourier"])),
+                                "order": int(rng.choice([0, 1])), "scalar": bool(rng.random() < 0.5)})
+            # python's round is half-even, as numpy's and the model's; at a tie the next parameters only need to be plausible
+            shape = [max(1, int(round(Fraction(n, 1) / Fraction(2) ** e))) for n, e in zip(shape, lg)]
+        elif k == "adjust":
+            box = []
+            for n in shape:
+                s_ = int(rng.integers(-3, n)); e_ = int(rng.integers(max(s_, 0) + 1, max(min(n + 4, s_ + cap), max(s_, 0) + 1) + 1))
+                box.append([s_, e_])
+            case["ops"].append({"op": "adjust", "box": box})
+            shape = [b[1] - b[0] for b in box]
+        elif k == "pad":
+            ns = [int(min(cap, max(1, n + rng.integers(-2, 5)))) for n in shape]
+            case["ops"].append({"op": "pad", "newshape": ns, "center": bool(rng.random() < 0.7)})
+            shape = ns
+        else:
+            case["ops"].append({"op": "copy"})
+    return case
 
 
 # ----------------------------------------------------------------------------------------------
@@ -836,7 +1487,9 @@ def _gen_trim_case(rng, **kw):
     else:
         cutoff = int(rng.integers(-4, data.size + 2))
     margin = int(rng.choice([0, 0, 1, 2, 3, -1])) if rng.random() < 0.9 else int(rng.integers(-3, 9))
-    case.update(cutoff=cutoff, margin=margin, default_margin=bool(margin == 0 and rng.random() < 0.3))
+    case.update(cutoff=cutoff, margin=margin, default_margin=bool(margin == 0 and rng.random() < 0.3),
+                half=bool(rng.random() < 0.3), cutform=str(rng.choice(["py", "py", "f4", "f8"])),
+                marginform=str(rng.choice(["py", "np64"])), kwform=bool(rng.random() < 0.2))
     return case
 
 
@@ -859,10 +1512,19 @@ def _gen_resample_case(rng, exact):
         new = [new[0]] * nd
         exact = exact and all(Fraction(o) / Fraction(nw) == Fraction(float(o / nw)) for o, nw in zip(old, new))
     exact = bool(exact and all(Fraction(o) / Fraction(nw) == Fraction(float(o / nw)) for o, nw in zip(old, new)))
+    if rng.random() < 0.25:      # whole-number rates (integer-typed rate arrays / python ints become possible)
+        old = [float(rng.integers(1, 7)) for _ in range(nd)]
+        new = [float(rng.integers(1, 7)) for _ in range(nd)] if not iso else [float(rng.integers(1, 7))] * nd
+        exact = bool(all(Fraction(o) / Fraction(nw) == Fraction(float(o / nw)) for o, nw in zip(old, new)))
     return {"shape": shape, "origin": [int(x) for x in rng.integers(-40, 41, size=nd)], "old": old, "new": new,
             "method": str(rng.choice(["spline", "fourier"])), "order": int(rng.choice([0, 1, 3])),
             "scalar_new": bool(iso), "exact": exact, "dataseed": int(rng.integers(0, 1000)),
-            "dtype": str(rng.choice(["float32", "float64"]))}
+            "dtype": str(rng.choice(["float32", "float64", "int32"])),
+            "layout": str(rng.choice(LAYOUTS)) if rng.random() < 0.4 else "C",
+            "oldform": str(rng.choice(["f8", "f8", "f4", "i8", "list", "scalar"])),
+            "newform": str(rng.choice(["scalar", "iscalar", "f4scalar"] if iso else ["tuple", "tuple", "list", "array", "f4", "i8"])),
+            "okind": str(rng.choice(["f8", "tuple", "i8"])), "positional": bool(rng.random() < 0.15),
+            "default_method": bool(rng.random() < 0.3)}
 
 
 def run(ctx):
@@ -890,7 +1552,8 @@ def run(ctx):
             for e in range(-n - 2, n + 5):
                 case = {"shape": [n], "data": list(range(1, n + 1)), "mode": "perm", "origin": [int(rng.integers(-40, 41))],
                         "rate": [int(rng.integers(1, 17))], "dtype": "float32", "box": [[s, e]], "pad": -1,
-                        "np_ints": bool((s + e) % 3 == 0)}
+                        "boxform": ["tuple", "list", "np64", "np32"][(s + e) % 4]}
+                _vary(case, len(keep) + n)
                 keep.append(case)
                 reqs.append(("c15.adjustBox", {**_margs(case), "box": case["box"], "pad": -1}))
         for case, m in zip(keep, d.batch(reqs)):
@@ -906,7 +1569,10 @@ def run(ctx):
         case["box"] = gen_box(rng, case["shape"], quirk=(i % 12 == 0))
         case["default_pad"] = bool(rng.random() < 0.15)
         case["pad"] = 0 if case["default_pad"] else _pad_for(rng, case)
-        case["np_ints"] = bool(rng.random() < 0.2)
+        case["boxform"] = str(rng.choice(["tuple", "tuple", "list", "np64", "np32"]))
+        case["padform"] = str(rng.choice(["kw", "kw", "mode", "positional"]))
+        if case.get("offset"):
+            case["default_pad"] = False      # the library's default pad value 0 is not the image of an id under this map
         keep.append(case)
         reqs.append(("c15.adjustBox", {**_margs(case), "box": case["box"], "pad": case["pad"]}))
     out = None
@@ -933,6 +1599,7 @@ def run(ctx):
                 case = {"shape": [n], "data": list(range(1, n + 1)), "mode": "perm", "origin": [int(rng.integers(-40, 41))],
                         "rate": [int(rng.integers(1, 17))], "dtype": "float32", "newshape": [new], "center": center,
                         "pad": int(rng.choice([0, -1])), "default_args": bool(rng.random() < 0.3)}
+                _vary(case, len(keep))
                 keep.append(case)
     for i in range(ctx.budget(1500, 12000)):
         case = gen_density(rng)
@@ -940,6 +1607,9 @@ def run(ctx):
         case["center"] = bool(rng.random() < 0.65)
         case["pad"] = _pad_for(rng, case)
         case["default_args"] = bool(rng.random() < 0.3)
+        case["nsform"] = str(rng.choice(["tuple", "tuple", "list", "np64", "np32", "tuple64"]))
+        case["centerform"] = str(rng.choice(["bool", "bool", "npbool", "int"]))
+        case["positional"] = bool(rng.random() < 0.2)
         keep.append(case)
     reqs = [("c15.pad", {**_margs(c), "newshape": c["newshape"], "center": c["center"], "pad": c["pad"]}) for c in keep]
     for case, m in zip(keep, d.batch(reqs)):
@@ -958,12 +1628,12 @@ def run(ctx):
     for n in range(1, ctx.budget(6, 8) + 1):
         for bits in itertools.product([0, 1], repeat=n):
             for margin in (0, 1):
-                keep.append({"shape": [n], "data": list(bits), "mode": "dup", "origin": [3], "rate": [5], "dtype": "float32",
-                             "cutoff": 0, "margin": margin})
+                keep.append(_vary({"shape": [n], "data": list(bits), "mode": "dup", "origin": [3], "rate": [5], "dtype": "float32",
+                                   "cutoff": 0, "margin": margin, "half": bool(len(keep) % 3 == 1)}, len(keep)))
     for bits in itertools.product([0, 1], repeat=6):
         for shape in ([2, 3], [3, 2]):
-            keep.append({"shape": shape, "data": list(bits), "mode": "dup", "origin": [3, -2], "rate": [5, 2], "dtype": "float64",
-                         "cutoff": 0, "margin": 0})
+            keep.append(_vary({"shape": shape, "data": list(bits), "mode": "dup", "origin": [3, -2], "rate": [5, 2], "dtype": "float64",
+                               "cutoff": 0, "margin": 0, "half": bool(len(keep) % 3 == 1)}, len(keep)))
     for i in range(ctx.budget(1500, 12000)):
         keep.append(_gen_trim_case(rng))
     reqs = [("c15.trimBox", {**_margs(c), "cutoff": c["cutoff"], "margin": c["margin"]}) for c in keep]
@@ -974,8 +1644,9 @@ def run(ctx):
     # ---- minimum_enclosing_box / centered
     rng = ctx.rng("mebox")
     for i in range(ctx.budget(250, 2500)):
-        case = gen_density(rng, nd=int(rng.choice([1, 2, 3])), mode="blob")
-        case["dtype"] = str(rng.choice(["float32", "float64"]))
+        case = gen_density(rng, nd=int(rng.choice([1, 2, 3])), mode="blob", dtypes=["float32", "float64"])
+        if case.get("offset") or case.get("scale", 1) <= 0:     # zero must stay zero (centre of mass, interpolation)
+            case.pop("scale", None); case.pop("offset", None)
         case["cutoff"] = int(rng.choice([0, 0, 1, 2]))
         case["geometric"] = bool(len(case["shape"]) >= 2 and rng.random() < 0.2)
         case_mebox(ctx, case)
@@ -1004,6 +1675,7 @@ def run(ctx):
     rng = ctx.rng("alias")
     for i in range(ctx.budget(100, 800)):
         case = gen_density(rng)
+        case["to_memmap"] = bool(i % 2 == 0)
         case_alias(ctx, case)
 
     # ---- histories
@@ -1021,10 +1693,28 @@ def run(ctx):
     for i in range(ctx.budget(200, 2000)):
         base = gen_density(rng, mode="perm")
         nd = len(base["shape"])
-        case = {"shape": base["shape"], "forigin": [float(x) for x in rng.normal(0, 50, size=nd)],
-                "frate": [float(x) for x in rng.uniform(0.3, 9.0, size=nd)],
-                "ops": [o for o in gen_history(rng, base, int(rng.integers(1, 6))) if o["op"] != "trim"]}
+        om, rm = float(rng.choice([1.0, 1.0, 1e3, 1e6, 1e-3])), float(rng.choice([1.0, 1.0, 1e-3, 1e3]))
+        case = {"shape": base["shape"], "forigin": [float(x) * om for x in rng.normal(0, 50, size=nd)],
+                "frate": [float(x) * rm for x in rng.uniform(0.3, 9.0, size=nd)], "layout": base["layout"],
+                "dtype": str(rng.choice(["float32", "float64", "int32"])),
+                "ops": [o for o in gen_history(rng, {**base, "scale": 1, "offset": 0}, int(rng.integers(1, 6))) if o["op"] != "trim"]}
         case_float(ctx, case)
+    if os.environ.get("PV_C15_SELFTEST_SEARCH"):     # builder's self-test: the widened stream of search() on this tree
+        search(ctx)
+
+    # ---- larger extents (clauses on the real outputs only)
+    rng = ctx.rng("big")
+    for i in range(ctx.budget(150, 1200)):
+        case_big(ctx, _gen_big(rng))
+    for i in range(ctx.budget(1, 4)):
+        for nd in (1, 2, 3):
+            for op in ("adjust", "pad", "trim"):
+                case_big(ctx, _gen_big(rng, huge=nd, op=op))
+
+    # ---- histories containing resampling (bookkeeping only)
+    rng = ctx.rng("rehistory")
+    for i in range(ctx.budget(250, 2500)):
+        case_rehistory(ctx, _gen_rehistory(rng, int(rng.integers(2, 7))))
 
 
 def _dispatch(ctx, inp):
@@ -1048,6 +1738,10 @@ def _dispatch(ctx, inp):
         case_float(ctx, case)
     elif k == "broadcast":
         case_broadcast(ctx, case)
+    elif k == "big":
+        case_big(ctx, case)
+    elif k == "rehistory":
+        case_rehistory(ctx, case)
     else:
         ctx.note("replay: unknown kind %r" % (k,))
 
@@ -1086,8 +1780,10 @@ def search(ctx):
     for i in range(1500):
         case_resample(ctx, _gen_resample_case(rng, exact=True))
     for i in range(300):
-        case = gen_density(rng, mode="blob", nd=int(rng.choice([2, 3])))
-        case.update(cutoff=0, geometric=False, dtype="float32")
+        case = gen_density(rng, mode="blob", nd=int(rng.choice([2, 3])), dtypes=["float32", "float64"])
+        if case.get("offset"):
+            case.pop("scale", None); case.pop("offset", None)
+        case.update(cutoff=0, geometric=False)
         case_mebox(ctx, case)
     for i in range(100):
         case_alias(ctx, gen_density(rng))
@@ -1095,3 +1791,7 @@ def search(ctx):
         case = gen_density(rng, mode="perm")
         case["ops"] = gen_history(rng, case, int(rng.integers(2, 16)))
         case_history(ctx, case)
+    for i in range(150):
+        case_big(ctx, _gen_big(rng))
+    for i in range(400):
+        case_rehistory(ctx, _gen_rehistory(rng, int(rng.integers(2, 9))))
